@@ -314,6 +314,10 @@ class Interp:
         v = self.num(v)
         if v != v or abs(v) == math.inf or not 0 <= int(v) < 512:
             raise NotJudged("stack address out of range")
+        if not 64 <= int(v) <= 447:
+            # the call conventions keep return values/arguments in the top cells and push ra from cell 0 upwards;
+            # user data there is outside the judged subset (DESIGN.md 2.4)
+            raise NotJudged("user data at a stack address the call conventions use")
         return int(v)
 
     def num(self, v):
